@@ -11,6 +11,8 @@
 EXTENDS Movie, Json
 
 CONSTANTS Structures, TrexDurs, Bases, DurModes, CtsModes, TfdtVs, Deliveries,
+          MdatFirsts,       \* {FALSE}, {TRUE} or both: media data of a fragment before its moof
+
           TrexPerTrack      \* TRUE: track t gets the default duration trexDur + t (differs between tracks)
 
 \* structures: Seq (fragments) of Seq (trafs) of <<track, count>>
@@ -23,21 +25,29 @@ S6 == << <<<<1, 2>>>>, <<<<2, 2>>>> >>
 S7 == << <<<<1, 0>>>>, <<<<1, 2>>>> >>
 AllStructures == {S1, S2, S3, S4, S5, S6, S7}
 QuickStructures == {S2, S5, S7}
+MixStructures == {S2, S3, S5}
 TrexBoth == {<<>>, <<7>>}
 TwoTrackStructures == {S4, S5, S6}
 
-VARIABLES st, trexDur, base, durMode, ctsMode, tfdtV, delivery, out
-vars == <<st, trexDur, base, durMode, ctsMode, tfdtV, delivery, out>>
+VARIABLES st, trexDur, base, durMode, ctsMode, tfdtV, delivery, mdatFirst, out
+vars == <<st, trexDur, base, durMode, ctsMode, tfdtV, delivery, mdatFirst, out>>
+
+\* duration mode of fragment i: the mixed modes change the source of the durations from one
+\* fragment of a track to the next (per-sample / tfhd default / movie-level default)
+ModeAt(i) == CASE durMode = "mixA" -> (IF i % 2 = 1 THEN "trex" ELSE "tfhd")
+               [] durMode = "mixB" -> (IF i % 2 = 1 THEN "tfhd" ELSE "trex")
+               [] durMode = "mixC" -> (IF i % 3 = 1 THEN "per" ELSE IF i % 3 = 2 THEN "trex" ELSE "tfhd")
+               [] OTHER -> durMode
 
 NTracks == IF \E i \in 1..Len(st) : \E j \in 1..Len(st[i]) : st[i][j][1] = 2 THEN 2 ELSE 1
 
 TrafOf(i, j) ==
   LET n == st[i][j][2] IN
   [ track |-> st[i][j][1], base |-> base,
-    tfhdDur |-> IF durMode = "tfhd" THEN Some(<<5>>) ELSE None,
+    tfhdDur |-> IF ModeAt(i) = "tfhd" THEN Some(<<5>>) ELSE None,
     tfdt |-> IF tfdtV = 1 THEN <<1, 0, 0, 0, i>> ELSE FromInt(100 * i + j),
     tfdtV |-> tfdtV,
-    durs |-> IF durMode = "per" THEN Some([s \in 1..n |-> FromInt(2 * s + i)]) ELSE None,
+    durs |-> IF ModeAt(i) = "per" THEN Some([s \in 1..n |-> FromInt(2 * s + i)]) ELSE None,
     sizes |-> [s \in 1..n |-> (i + j + s) % 3],
     cts |-> CASE ctsMode = "none" -> None
               [] ctsMode = "v0" -> Some([s \in 1..n |-> FromInt(s + 1)])
@@ -47,19 +57,20 @@ TrafOf(i, j) ==
 TheFrag ==
   [ mts |-> <<3, 232>>,
     tracks |-> [t \in 1..NTracks |-> [kind |-> IF t = 1 THEN "avc" ELSE "aac", timescale |-> <<3, 232>>, trexDur |-> IF TrexPerTrack THEN Add(trexDur, FromInt(t)) ELSE trexDur]],
-    frags |-> [i \in 1..Len(st) |-> [j \in 1..Len(st[i]) |-> TrafOf(i, j)]] ]
+    frags |-> [i \in 1..Len(st) |-> [j \in 1..Len(st[i]) |-> TrafOf(i, j)]],
+    mdatFirst |-> mdatFirst ]
 
 Init == /\ st \in Structures /\ trexDur \in TrexDurs /\ base \in Bases /\ durMode \in DurModes
-        /\ ctsMode \in CtsModes /\ tfdtV \in TfdtVs /\ delivery \in Deliveries
+        /\ ctsMode \in CtsModes /\ tfdtV \in TfdtVs /\ delivery \in Deliveries /\ mdatFirst \in MdatFirsts
         /\ out = [done |-> FALSE]
 
 Render == /\ ~out.done
           /\ out' = [done |-> TRUE] @@ RenderFrag(TheFrag, delivery, <<>>)
-          /\ UNCHANGED <<st, trexDur, base, durMode, ctsMode, tfdtV, delivery>>
+          /\ UNCHANGED <<st, trexDur, base, durMode, ctsMode, tfdtV, delivery, mdatFirst>>
 Next == Render
 Spec == Init /\ [][Next]_vars
 
 Emit == out.done => PrintT("CASE " \o ToJson([file |-> out.file, init |-> out.init, delivery |-> delivery,
                                               base |-> base, durMode |-> durMode, ctsMode |-> ctsMode,
-                                              tfdtV |-> tfdtV, nfrag |-> Len(st), ntracks |-> NTracks]))
+                                              tfdtV |-> tfdtV, nfrag |-> Len(st), ntracks |-> NTracks, mdatFirst |-> mdatFirst]))
 =============================================================================
